@@ -93,6 +93,24 @@ func (f *ReplayFilter) TestAndSet(now time.Time, buf []byte) bool {
 	f.Lock()
 	defer f.Unlock()
 
+	return f.testAndSetLocked(now, digest)
+}
+
+// TestAndSetNow is TestAndSet using the current time, which is read with the
+// filter locked.  Concurrent callers that sample the clock themselves can
+// reach the filter in a different order than they read the clock in, which
+// looks like the clock jumping backwards, and resets the filter (forgetting
+// every handshake seen so far, including the one just inserted).
+func (f *ReplayFilter) TestAndSetNow(buf []byte) bool {
+	digest := siphash.Hash(f.key[0], f.key[1], buf)
+
+	f.Lock()
+	defer f.Unlock()
+
+	return f.testAndSetLocked(time.Now(), digest)
+}
+
+func (f *ReplayFilter) testAndSetLocked(now time.Time, digest uint64) bool {
 	f.compactFilter(now)
 
 	if e := f.filter[digest]; e != nil {
